@@ -47,6 +47,15 @@ theorem c11_real (io : IO) (px : E.ParseExt) (lists : List RList) (hok : ListsOK
   rw [hr]
   exact materialize_toS hn
 
+/-- `c11_real` with group H's model of the `$dnsrewrite` value parser plugged in as well: the only parameters
+    left are the external oracles `ext` (public suffix list, `netip`, pattern oracle) and `findRegexpShortcut`
+    (group A's model works on the parsed regexp tree, not on bytes; it stays a parameter). -/
+theorem c11_real_modelled (io : IO) (ext : Ext) (regexpShortcut : Bytes → Bytes) (lists : List RList)
+    (hok : ListsOK lists) (st : RuleStorage) (hnew : newRuleStorage lists = some st) (history : List (BitVec 64))
+    (r : Rule) (k : BitVec 64) (h : (r, k) ∈ storageRules (modelPx ext regexpShortcut) lists) :
+    (retrieveFull io (modelPx ext regexpShortcut) (reach io (modelPx ext regexpShortcut) st history) k).1 = some r :=
+  c11_real io (modelPx ext regexpShortcut) lists hok st hnew history r k h
+
 /-- The same in group D's terms (kind, text, list id), any cache that is a cache of these lists. -/
 theorem c11_real_srule (io : IO) (px : E.ParseExt) (st : RuleStorage) (hok : ListsOK st.lists)
     (hinv : CacheInv io (realParser px) st) (r : Rule) (k : BitVec 64) (h : (r, k) ∈ storageRules px st.lists) :
